@@ -4,6 +4,11 @@
 set -e
 cd "$(dirname "$0")"
 export CARGO_NET_OFFLINE=true
+# environment guard (DESIGN 13.13): /dev/null has been found replaced by a regular file on this machine; cargo's
+# `rustc -` probe then reads stray text. Restore the device if possible; the builds below read an empty pipe anyway.
+if [ ! -c /dev/null ]; then
+  rm -f /dev/null && mknod -m 666 /dev/null c 1 3 && echo "[env] /dev/null restored as the character device 1:3" || true
+fi
 [ -f harness/Cargo.lock ] || cp /repo/Cargo.lock harness/Cargo.lock
 LEAN_TARGETS=""
 CARGO_BINS=""
@@ -12,10 +17,10 @@ for id in $(cat claimed.txt) $(grep -v "^#" subchecks.txt 2>/dev/null | cut -d" 
   LEAN_TARGETS="$LEAN_TARGETS BarterModel.Props.$id drv_c$n"
   CARGO_BINS="$CARGO_BINS --bin c$n"
 done
-(cd lean && lake build $LEAN_TARGETS)
+(cd lean && : | lake build $LEAN_TARGETS)
 # a stale / half-written incremental cache (e.g. a sandbox copy taken mid-build) can make the link fail:
 # retry once without the incremental cache, then from a clean target
-(cd harness && cargo build --offline $CARGO_BINS) || \
-  (cd harness && rm -rf target/debug/incremental && cargo build --offline $CARGO_BINS) || \
-  (cd harness && cargo clean && cargo build --offline $CARGO_BINS)
+(cd harness && : | cargo build --offline $CARGO_BINS) || \
+  (cd harness && rm -rf target/debug/incremental target/.rustc_info.json && : | cargo build --offline $CARGO_BINS) || \
+  (cd harness && cargo clean && : | cargo build --offline $CARGO_BINS)
 echo setup-ok
